@@ -44,10 +44,16 @@ func planShape(e parser.Expr, inRemote bool) string {
 	case *parser.Call:
 		return "c:" + n.Func.Name + "(" + args(n.Args) + ")"
 	case *parser.AggregateExpr:
-		if n.Param != nil {
-			return "a:" + n.Op.String() + "[" + planShape(n.Param, inRemote) + "](" + planShape(n.Expr, inRemote) + ")"
+		// operator, by/without and the grouping labels as written (the local re-aggregation must
+		// keep them)
+		grp := "{" + strings.Join(n.Grouping, ";") + "}"
+		if n.Without {
+			grp = "!" + grp
 		}
-		return "a:" + n.Op.String() + "(" + planShape(n.Expr, inRemote) + ")"
+		if n.Param != nil {
+			return "a:" + n.Op.String() + grp + "[" + planShape(n.Param, inRemote) + "](" + planShape(n.Expr, inRemote) + ")"
+		}
+		return "a:" + n.Op.String() + grp + "(" + planShape(n.Expr, inRemote) + ")"
 	case *parser.BinaryExpr:
 		return "b:" + n.Op.String() + "(" + planShape(n.LHS, inRemote) + "," + planShape(n.RHS, inRemote) + ")"
 	case *parser.UnaryExpr:
